@@ -34,44 +34,3 @@ impl<T: Future> FuturesOrderedBounded<T> {
         self.queued_outputs.as_slice().get(k).map(|w| (w.index, &w.data))
     }
 }
-
-impl<T: Future> FuturesOrderedBounded<T> {
-    /// diagnostic: the heap hand-over of the re-basing block, observable
-    pub fn verif_rebase_probe(&mut self) -> (usize, usize) {
-        let taken = core::mem::take(&mut self.queued_outputs);
-        let cap_placeholder = self.queued_outputs.capacity();
-        let v = taken.into_vec();
-        let c2 = v.capacity();
-        self.queued_outputs = v.into();
-        (cap_placeholder, c2)
-    }
-}
-
-impl<T: Future> FuturesOrderedBounded<T> {
-    pub fn verif_probe_caps() -> (usize, usize, usize, usize) {
-        let a: BinaryHeap<OrderWrapper<T::Output>> = Default::default();
-        let b = BinaryHeap::<OrderWrapper<T::Output>>::new();
-        let c = alloc::vec::Vec::<OrderWrapper<T::Output>>::new();
-        let mut d = BinaryHeap::<OrderWrapper<T::Output>>::with_capacity(1);
-        let e = core::mem::take(&mut d);
-        core::mem::forget(e);
-        (a.capacity(), b.capacity(), c.capacity(), d.capacity())
-    }
-}
-
-impl<T: Future> FuturesOrderedBounded<T> {
-    pub fn verif_probe5(&mut self) -> [usize; 6] {
-        let c0 = self.queued_outputs.capacity();
-        let fresh = BinaryHeap::<OrderWrapper<T::Output>>::new();
-        let cf = fresh.capacity();
-        let taken = core::mem::replace(&mut self.queued_outputs, fresh);
-        let c1 = self.queued_outputs.capacity();
-        let ct = taken.capacity();
-        let l1 = self.queued_outputs.len();
-        core::mem::forget(taken);
-        let t2 = core::mem::take(&mut self.queued_outputs);
-        let c2 = self.queued_outputs.capacity();
-        core::mem::forget(t2);
-        [c0, cf, c1, ct, l1, c2]
-    }
-}
